@@ -31,6 +31,35 @@ let vout = function
 let pts x = List.map (fun p -> match ints p with [a; b] -> (z_of_int a, z_of_int b) | _ -> failwith "pt") (list_of x)
 let boolv = function I 0 -> false | _ -> true
 
+(* ---- derived views (coq/circuit/CViews.v) of the current grid, canonical ---- *)
+let vpt (a, b) = L [I (int_of_nat a); I (int_of_nat b)]
+let vopt = function None -> L [] | Some p -> vpt p
+let rec range a b = if a >= b then [] else a :: range (a + 1) b
+let vqmap l =
+  let l' = List.sort compare (List.map (fun (q, x) -> (int_of_nat q, x)) l) in
+  L (List.map (fun (q, x) -> L [I q; vopt x]) l')
+let vviews c =
+  let n = int_of_nat c.nq in
+  let qs = List.map nat_of_int (range 0 n) in
+  let ps = points c in
+  L [ L (List.map (fun q -> vopt (first_on c q)) qs);
+      L (List.map (fun q -> vopt (last_on c q)) qs);
+      L (List.map vpt (front c));
+      L (List.map vpt (rear c));
+      L (List.map (fun p -> match dag_entry c p with
+                            | None -> L [vpt p; A "none"]
+                            | Some (pv, nx) -> L [vpt p; vqmap pv; vqmap nx]) ps);
+      L (List.map (fun p -> L [vpt p; L (List.map vpt (nexts c p))]) ps);
+      L (List.map (fun p -> L [vpt p; L (List.map vpt (prevs c p))]) ps);
+      I (int_of_nat (num_operations c));
+      L (List.map (fun (k, m) -> L [vop k; I (int_of_nat m)]) (gate_counts c));
+      L (List.map (fun (p, m) -> L [vpt p; I (int_of_nat m)]) (graph_info c));
+      L (List.map (fun q -> I (int_of_nat q)) (active_qudits c));
+      I (int_of_nat (depth c));
+      L (List.map (fun (i, o) -> match o with
+                                 | None -> L [I (int_of_nat i); A "none"]
+                                 | Some o -> L [I (int_of_nat i); vop o]) (dag_iter c)) ]
+
 let cur = ref { nq = O; rads = []; cycles = [] }
 let fin (c, o) = cur := c; vout o ^ " | " ^ show (vcirc c)
 
@@ -61,6 +90,7 @@ let handle line = match parse line with
   | [A "iadd"; c] -> fin (c_iadd !cur (circ_of c))
   | [A "mul"; I n] -> fin (!cur, OkC (c_mul !cur (nat_of_int n)))
   | [A "imul"; I n] -> fin (c_imul !cur (nat_of_int n), OkU)
+  | [A "views"] -> show (vviews !cur)
   | [A "iter"] -> show (L (List.map vop (iter_ops !cur.cycles)))
   | [A "reduce"] -> show (L (List.map (fun cy -> L (List.map vop cy)) (reduce !cur)))
   | [A "riter"] -> show (L (List.map vop (riter_ops !cur.cycles)))
